@@ -58,6 +58,8 @@ def cb_form(M, C, K, b):
     P = np.eye(n)[:, order]
     Mo, Co, Ko = P.T @ M @ P, P.T @ C @ P, P.T @ K @ P
     nb = len(b)
+    if not i:
+        return Mo, Co, Ko            # no interior DOF: the boundary-ordered physical matrices are the CB model
     Kii, Kib = Ko[nb:, nb:], Ko[nb:, :nb]
     psi = -la.solve(Kii, Kib)
     w, phi = la.eigh(Kii, Mo[nb:, nb:])
@@ -77,6 +79,9 @@ def oracle(case, R):
     nS, nL, nb = case["nS"], case["nL"], case["nb"]
     nb = min(nb, nS - 1, nL - 1) if min(nS, nL) > 1 else 1
     nb = max(nb, 1)
+    if case.get("load_all_boundary") and nb >= 2:
+        nL = nb                  # a Load that consists of its interface DOF only (no interior: no modal DOF at all)
+        R.label("load:all_boundary")
     MS, CS, KS = network(rng, nS, case["propS"], case["zeta"])
     ML, CL, KL = network(rng, nL, case["propL"], case["zeta"])
     # the same structures on another time scale (seconds -> milliseconds: stiffness x s^2, damping x s, frequencies
@@ -326,7 +331,8 @@ def cases(draw):
             "fs": draw(st.sampled_from(["none", "FreqDirect", "SolveUnc", "SolveUnc_h", "SolveUnc_h_used"])),
             "fs_h": draw(st.sampled_from([1e-3, 1e-2])),
             "fscale": draw(st.sampled_from([1.0, 1.0, 1e-12, 1e10])),
-            "tunit": draw(st.sampled_from([1.0, 1.0, 1e-3, 1e-4]))}
+            "tunit": draw(st.sampled_from([1.0, 1.0, 1e-3, 1e-4])),
+            "load_all_boundary": draw(st.integers(0, 5)) == 0}
 
 
 @st.composite
